@@ -86,6 +86,14 @@ type ScStep struct {
 	From   string  `json:"from"`
 	N      int     `json:"n"`
 	Sync   bool    `json:"sync"`
+	Items  []ScBurstItem `json:"items"`
+}
+
+// ScBurstItem: one item of a burst (all items are recorded first, then handed to the transports by one goroutine
+// per endpoint concurrently, without touching the recorder - the recorder's mutex must not order the readers)
+type ScBurstItem struct {
+	Ep   int     `json:"ep"`
+	Item *ScItem `json:"item"`
 }
 
 type Scenario struct {
